@@ -641,6 +641,78 @@ Fixpoint carried_rev (s : N) (hs : list hopf) (first peer_last : bool) : list N 
     s' :: carried_rev s' r false peer_last
   end.
 
+(** * One-hop paths ([OneHopRoutingLogic], as written: "we skip all non required checks") *)
+Record ohpacket := mkOh { o_dst : N; o_info : infof; o_h1 : hopf; o_h2 : hopf }.
+
+Definition sdk_route_onehop (ia : N) (K : key) (i : N) (pk : ohpacket) : action * ohpacket :=
+  let inf := o_info pk in
+  if i =? 0 then
+    (* handle_one_hop_path_ingress returns ContinueEgress; handle_one_hop_path_egress *)
+    let inf' := if i_cons inf then set_segid inf (beta_step (i_segid inf) (h_mac (o_h1 pk))) else inf in
+    (AFwd (h_eg (o_h1 pk)), mkOh (o_dst pk) inf' (o_h1 pk) (o_h2 pk))
+  else
+    let local (pk' : ohpacket) :=
+        if ia =? o_dst pk then (ALocal, pk') else (AScmp (100 + PP_NON_LOCAL_DELIVERY) 0, pk') in
+    if h_mac (o_h2 pk) =? 0 then
+      if negb (i_cons inf) then (ADrop, pk)
+      else
+        (* set_second_hop(ingress, key, segment_id_was_advanced = true) *)
+        let h2 := mkHop false false (h_exp (o_h1 pk)) i 0
+                        (mac K (i_segid inf) (i_ts inf) (h_exp (o_h1 pk)) i 0) in
+        local (mkOh (o_dst pk) inf (o_h1 pk) h2)
+    else
+      let inf' := if negb (i_cons inf)
+                  then set_segid inf (beta_step (i_segid inf) (h_mac (o_h2 pk))) else inf in
+      local (mkOh (o_dst pk) inf' (o_h1 pk) (o_h2 pk)).
+
+Fixpoint sdk_onehop_sim (fuel : nat) (t : topology) (ia cur_if : N) (pk : ohpacket)
+  : list step * simend :=
+  match fuel with
+  | O => ([], EndFuel)
+  | S f =>
+    match find_as t ia with
+    | None => ([], EndError)
+    | Some a =>
+      let '(act, pk') := sdk_route_onehop ia (a_key a) cur_if pk in
+      match act with
+      | AFwd eg =>
+        match scion_link t ia eg with
+        | None => ([], EndError)
+        | Some l =>
+          match get_peer l ia with
+          | None => ([], EndError)
+          | Some (ia', if') =>
+            match find_as t ia' with
+            | None => ([], EndError)
+            | Some _ => let '(tr, e) := sdk_onehop_sim f t ia' if' pk' in (mkStep ia cur_if act :: tr, e)
+            end
+          end
+        end
+      | _ => ([mkStep ia cur_if act], EndVerdict)
+      end
+    end
+  end.
+
+(** reference: the origin AS's router checks the first hop field like any other (authentic
+    for its key over the SegID, within its lifetime, egress link existing and up); the
+    neighbour delivers if the packet is addressed to it *)
+Definition ref_onehop (t : topology) (now ia : N) (pk : ohpacket) : rend :=
+  match find_as t ia with
+  | None => RNoLink
+  | Some a =>
+    if negb (ref_time_ok now (o_h1 pk) (o_info pk)) then RRejected ia 3
+    else if negb (hop_mac_ok (a_key a) (o_h1 pk) (o_info pk)) then RRejected ia 4
+    else match iface_state t ia (h_eg (o_h1 pk)), scion_link t ia (h_eg (o_h1 pk)) with
+         | Some (_, up), Some l =>
+           if negb up then RRejected ia 8
+           else match get_peer l ia with
+                | Some (ia', _) => if ia' =? o_dst pk then RDelivered ia' else RRejected ia' 5
+                | None => RNoLink
+                end
+         | _, _ => RRejected ia 7
+         end
+  end.
+
 End Keyed.
 
 Arguments asrec : clear implicits.
